@@ -82,6 +82,7 @@ func runDetachHook(c *mon.Case, sp spec) {
 		how = "pipe" // the dialling side closes its pipe; its dialer redials
 	}
 	newSrv := srv
+	nw, nwWant := ow, 2 // the other end's view: it, too, must have the new connection before traffic (BUS drops what it cannot send)
 	switch how {
 	case "pipe":
 		ps := ow.Pipes()
@@ -89,8 +90,15 @@ func runDetachHook(c *mon.Case, sp spec) {
 	case "socket":
 		_ = srv.Close()
 		newSrv = hx.MustSock(c, p)
+		nw = hx.WatchPipes(newSrv)
+		nwWant = 1
 		// the address is free once Close returned; listen there again
-		k := mon.Go("Listen", func() (interface{}, error) { return nil, newSrv.Listen(l.Address()) })
+		var lo map[string]interface{}
+		if hx.NeedsTLS(tr) {
+			scfg, _ := hx.TlsConfigs()
+			lo = map[string]interface{}{mangos.OptionTLSConfig: scfg}
+		}
+		k := mon.Go("Listen", func() (interface{}, error) { return nil, newSrv.ListenOptions(l.Address(), lo) })
 		if !c.AwaitOrViolate("wedged:"+ctx+"/listen-again", ctx+": a new socket listening at the freed address", k.Done, mon.AwaitOpts{}) {
 			return
 		}
@@ -110,6 +118,9 @@ func runDetachHook(c *mon.Case, sp spec) {
 		return
 	}
 	if !c.AwaitOrViolate("wedged:"+ctx+"/hook-return", ctx+": the Detached callback returning", func() bool { mu.Lock(); defer mu.Unlock(); return hookReturned >= 1 }, mon.AwaitOpts{}) {
+		return
+	}
+	if !c.AwaitOrViolate("wedged:"+ctx+"/other-end-attach", ctx+": the other end attaching the new connection", func() bool { return nw.Attached() >= nwWant }, mon.AwaitOpts{MaxTimer: R}) {
 		return
 	}
 	if !converse(c, ctx, p, cli, newSrv) {
